@@ -3,7 +3,7 @@ Spec-driven enumeration of 15-byte candidates per mode; reference lengths and
 branch targets come from a vendored table generated with objdump and
 llvm-objdump (extended on the fly when the tools are present and the tree
 produces candidates that are not in the table)."""
-import json, os
+import json, itertools, os
 from amc import core, isas, x86ref
 from amc.core import Failure, Report, exc_sig
 from amc.gen import specwords
@@ -19,7 +19,7 @@ def candidates_unit(args):
     out = []
     seen = set()
     for s in S[lo:hi]:
-        for b in specwords.cases_for_spec(isa, s, 1, d.maxlen, tier):
+        for b in itertools.chain(specwords.cases_for_spec(isa, s, 1, d.maxlen, tier), specwords.prefixed_modrm_cases(isa, s, tier)):
             if not b:
                 continue
             c = (b + b"\x00" * 15)[:15]
